@@ -123,6 +123,9 @@ type T struct {
 	C       uint64
 	Name    string
 	ID      uint32
+	// signed value range of a bit-vector term (valid when ROK), computed at construction
+	RLo, RHi int64
+	ROK      bool
 }
 
 func (t *T) IsConst() bool { return t.Op == OConst }
@@ -167,8 +170,139 @@ func (tb *Table) mk(op Op, s Sort, x, y, z *T, c uint64, name string) *T {
 	t := &T{Op: op, S: s, X: x, Y: y, Z: z, C: c, Name: name, ID: tb.next}
 	tb.next++
 	tb.m[k] = t
+	if s.K == KBV {
+		t.RLo, t.RHi, t.ROK = computeRange(t)
+	}
 	return t
 }
+
+func addOvf(a, b int64) (int64, bool) {
+	c := a + b
+	return c, (a >= 0) == (b >= 0) && (c >= 0) != (a >= 0)
+}
+func mulOvf(a, b int64) (int64, bool) {
+	if a == 0 || b == 0 {
+		return 0, false
+	}
+	c := a * b
+	return c, c/b != a || (a == -1 && b == math.MinInt64) || (b == -1 && a == math.MinInt64)
+}
+
+// computeRange derives a signed interval for t (as a w-bit two's complement number).
+func computeRange(t *T) (lo, hi int64, ok bool) {
+	w := t.S.W
+	fits := func(lo, hi int64) (int64, int64, bool) {
+		if lo > hi {
+			return 0, 0, false
+		}
+		if w < 64 {
+			mn, mx := -(int64(1) << (w - 1)), (int64(1)<<(w-1))-1
+			if lo < mn || hi > mx {
+				return 0, 0, false
+			}
+		}
+		return lo, hi, true
+	}
+	switch t.Op {
+	case OConst:
+		v := sext(t.C, w)
+		return v, v, true
+	case OZExt:
+		if t.X.ROK && t.X.RLo >= 0 {
+			return t.X.RLo, t.X.RHi, true
+		}
+		if t.X.S.W < 63 {
+			return 0, int64(mask(t.X.S.W)), true
+		}
+	case OSExt:
+		if t.X.ROK {
+			return t.X.RLo, t.X.RHi, true
+		}
+		xw := t.X.S.W
+		return -(int64(1) << (xw - 1)), (int64(1) << (xw - 1)) - 1, true
+	case OAdd:
+		if t.X.ROK && t.Y.ROK {
+			l, o1 := addOvf(t.X.RLo, t.Y.RLo)
+			h, o2 := addOvf(t.X.RHi, t.Y.RHi)
+			if !o1 && !o2 {
+				return fits(l, h)
+			}
+		}
+	case OSub:
+		if t.X.ROK && t.Y.ROK && t.Y.RLo != math.MinInt64 && t.Y.RHi != math.MinInt64 {
+			l, o1 := addOvf(t.X.RLo, -t.Y.RHi)
+			h, o2 := addOvf(t.X.RHi, -t.Y.RLo)
+			if !o1 && !o2 {
+				return fits(l, h)
+			}
+		}
+	case ONeg:
+		if t.X.ROK && t.X.RLo != math.MinInt64 {
+			return fits(-t.X.RHi, -t.X.RLo)
+		}
+	case OMul:
+		if t.X.ROK && t.Y.ROK {
+			cands := [4][2]int64{{t.X.RLo, t.Y.RLo}, {t.X.RLo, t.Y.RHi}, {t.X.RHi, t.Y.RLo}, {t.X.RHi, t.Y.RHi}}
+			l, h := int64(math.MaxInt64), int64(math.MinInt64)
+			for _, c := range cands {
+				p, o := mulOvf(c[0], c[1])
+				if o {
+					return 0, 0, false
+				}
+				l, h = min(l, p), max(h, p)
+			}
+			return fits(l, h)
+		}
+	case OIte:
+		if t.Y.ROK && t.Z.ROK {
+			return min(t.Y.RLo, t.Z.RLo), max(t.Y.RHi, t.Z.RHi), true
+		}
+	case OURem:
+		if t.Y.Op == OConst && sext(t.Y.C, w) > 0 {
+			d := sext(t.Y.C, w)
+			if t.X.ROK && t.X.RLo >= 0 && t.X.RHi < d {
+				return t.X.RLo, t.X.RHi, true
+			}
+			return 0, d - 1, true
+		}
+	case OSRem:
+		if t.Y.Op == OConst && sext(t.Y.C, w) > 0 {
+			d := sext(t.Y.C, w)
+			if t.X.ROK && t.X.RLo >= 0 {
+				return 0, d - 1, true
+			}
+			return -(d - 1), d - 1, true
+		}
+	case OUDiv:
+		if t.Y.Op == OConst && sext(t.Y.C, w) > 0 && t.X.ROK && t.X.RLo >= 0 {
+			d := sext(t.Y.C, w)
+			return t.X.RLo / d, t.X.RHi / d, true
+		}
+	case OSDiv:
+		if t.Y.Op == OConst && sext(t.Y.C, w) > 0 && t.X.ROK {
+			d := sext(t.Y.C, w)
+			return t.X.RLo / d, t.X.RHi / d, true
+		}
+	case OBAnd:
+		if t.Y.Op == OConst && sext(t.Y.C, w) >= 0 {
+			return 0, sext(t.Y.C, w), true
+		}
+		if t.X.Op == OConst && sext(t.X.C, w) >= 0 {
+			return 0, sext(t.X.C, w), true
+		}
+	case OLShr:
+		if t.Y.Op == OConst && t.Y.C > 0 && t.Y.C < uint64(w) {
+			return 0, int64(mask(w) >> t.Y.C), true
+		}
+	case OExtract:
+		if t.C&0xff == 0 && t.X.ROK && t.X.RLo >= 0 && w < 64 && t.X.RHi <= (int64(1)<<(w-1))-1 {
+			return t.X.RLo, t.X.RHi, true
+		}
+	}
+	return 0, 0, false
+}
+
+func bitsFor(v uint64) int { return bits.Len64(v) }
 
 // Size returns the number of interned terms.
 func (tb *Table) Size() int { return len(tb.m) }
@@ -346,6 +480,9 @@ func (tb *Table) Eq(x, y *T) *T {
 	}
 	if x.Op == OConst && y.Op == OConst {
 		return tb.BoolC(x.C == y.C)
+	}
+	if x.S.K == KBV && x.ROK && y.ROK && (x.RHi < y.RLo || y.RHi < x.RLo) {
+		return tb.ff
 	}
 	if x.S.K == KBool {
 		if x.Op == OConst {
@@ -578,8 +715,97 @@ func (tb *Table) bin(op Op, x, y *T) *T {
 			return tb.BV(int(w), 0)
 		}
 	}
+	if r := tb.narrowDivRem(op, x, y); r != nil {
+		return r
+	}
 	if (op == OAdd || op == OMul || op == OBAnd || op == OBOr || op == OBXor) && x.ID > y.ID && y.Op != OConst {
 		x, y = y, x
+	}
+	return tb.mk(op, x.S, x, y, nil, 0, "")
+}
+
+// narrowDivRem rewrites division/remainder by a positive constant on an operand whose
+// value range is known and narrow ("constant + few symbolic bits") into an operation on a
+// narrow bit-vector, which bit-blasting solvers decide instantly:
+//   x = lo + y, 0 <= y <= spread:  x mod d = ((lo mod d) + y) mod d ; x div d = lo div d + ((lo mod d) + y) div d
+func (tb *Table) narrowDivRem(op Op, x, y *T) *T {
+	if op != OURem && op != OUDiv && op != OSRem && op != OSDiv {
+		return nil
+	}
+	w := int(x.S.W)
+	if y.Op != OConst || !x.ROK || w < 16 {
+		return nil
+	}
+	d := sext(y.C, x.S.W)
+	if d <= 0 {
+		return nil
+	}
+	signedOp := op == OSRem || op == OSDiv
+	if x.RLo < 0 && x.RHi >= 0 && signedOp && x.RLo > -(1<<40) && x.RHi < 1<<40 {
+		// narrow range crossing zero: split on the sign with clamped operands so that
+		// both halves have a non-negative structural range
+		zero := tb.BV(w, 0)
+		neg := tb.cmp(OSLt, x, zero)
+		uop := OURem
+		if op == OSDiv {
+			uop = OUDiv
+		}
+		half := func(v *T, maxv uint64) *T {
+			nw := max(bitsFor(maxv), bitsFor(uint64(d))) + 1
+			if nw < 4 {
+				nw = 4
+			}
+			if nw >= w {
+				return tb.mk(uop, x.S, v, y, nil, 0, "")
+			}
+			return tb.ZExt(tb.mk2(uop, tb.Extract(v, nw-1, 0), tb.BV(nw, uint64(d))), w)
+		}
+		return tb.Ite(neg, tb.Neg(half(tb.Neg(x), uint64(-x.RLo))), half(x, uint64(x.RHi)))
+	}
+	if x.RLo < 0 {
+		if !signedOp || x.RHi >= 0 || x.RLo == math.MinInt64 {
+			return nil
+		}
+		// entirely negative: truncated division semantics: x rem d = -((-x) rem d); x div d = -((-x) div d)
+		nx := tb.Neg(x)
+		if op == OSRem {
+			return tb.Neg(tb.bin(OURem, nx, y))
+		}
+		return tb.Neg(tb.bin(OUDiv, nx, y))
+	}
+	// non-negative operand: signed and unsigned agree
+	lo, hi := uint64(x.RLo), uint64(x.RHi)
+	spread := hi - lo
+	if spread >= 1<<40 || uint64(d) >= 1<<40 {
+		if signedOp {
+			if op == OSRem {
+				return tb.mk(OURem, x.S, x, y, nil, 0, "")
+			}
+			return tb.mk(OUDiv, x.S, x, y, nil, 0, "")
+		}
+		return nil
+	}
+	nw := bitsFor(spread+uint64(d)) + 1
+	if nw >= w {
+		return nil
+	}
+	if nw < 4 {
+		nw = 4
+	}
+	yv := tb.Extract(tb.bin(OSub, x, tb.BV(w, lo)), nw-1, 0) // y = x - lo, fits nw bits
+	sum := tb.bin(OAdd, yv, tb.BV(nw, lo%uint64(d)))
+	dn := tb.BV(nw, uint64(d))
+	if op == OURem || op == OSRem {
+		return tb.ZExt(tb.mk2(OURem, sum, dn), w)
+	}
+	q := tb.ZExt(tb.mk2(OUDiv, sum, dn), w)
+	return tb.bin(OAdd, q, tb.BV(w, lo/uint64(d)))
+}
+
+// mk2 builds a binary node with constant folding only (no further narrowing).
+func (tb *Table) mk2(op Op, x, y *T) *T {
+	if x.Op == OConst && y.Op == OConst {
+		return tb.bin(op, x, y)
 	}
 	return tb.mk(op, x.S, x, y, nil, 0, "")
 }
@@ -637,6 +863,27 @@ func (tb *Table) cmp(op Op, x, y *T) *T {
 	}
 	if x == y {
 		return tb.BoolC(op == OULe || op == OSLe)
+	}
+	if x.ROK && y.ROK {
+		signedCmp := op == OSLt || op == OSLe
+		if signedCmp || (x.RLo >= 0 && y.RLo >= 0) {
+			switch op {
+			case OSLt, OULt:
+				if x.RHi < y.RLo {
+					return tb.tt
+				}
+				if x.RLo >= y.RHi {
+					return tb.ff
+				}
+			case OSLe, OULe:
+				if x.RHi <= y.RLo {
+					return tb.tt
+				}
+				if x.RLo > y.RHi {
+					return tb.ff
+				}
+			}
+		}
 	}
 	// range reasoning on zero-extended operands versus constants
 	if lo, hi, ok := urange(x); ok && y.Op == OConst {
@@ -741,6 +988,18 @@ func (tb *Table) Extract(x *T, hi, lo int) *T {
 	if x.Op == OExtract {
 		l0 := int(x.C & 0xff)
 		return tb.Extract(x.X, hi+l0, lo+l0)
+	}
+	if lo == 0 {
+		switch x.Op {
+		case OAdd, OSub, OMul, OBAnd, OBOr, OBXor:
+			return tb.bin(x.Op, tb.Extract(x.X, hi, 0), tb.Extract(x.Y, hi, 0))
+		case ONeg:
+			return tb.Neg(tb.Extract(x.X, hi, 0))
+		case OBNot:
+			return tb.BNot(tb.Extract(x.X, hi, 0))
+		case OIte:
+			return tb.Ite(x.X, tb.Extract(x.Y, hi, 0), tb.Extract(x.Z, hi, 0))
+		}
 	}
 	if x.Op == OConcat {
 		yw := int(x.Y.S.W)
@@ -1154,4 +1413,3 @@ func (e *Evaluator) eval(t *T) uint64 {
 	panic(fmt.Sprintf("term.eval: op %d", t.Op))
 }
 
-var _ = bits.Len64
